@@ -92,7 +92,9 @@ pub fn gen(r: &mut Rng) -> Value {
         let cmd = r.pick(&seq).split(' ').next().unwrap_or("x").to_string();
         extra.push(r.pick(&shapes).replace('@', &cmd));
     }
-    json!({"calls": seq, "with_out": r.chance(2, 3), "caller_vars": extra})
+    // a call may sit in a loop body (it then runs twice) or in the body of a function that is called
+    let wraps: Vec<u64> = seq.iter().map(|_| if r.chance(1, 3) { 1 + r.below(2) as u64 } else { 0 }).collect();
+    json!({"calls": seq, "with_out": r.chance(2, 3), "caller_vars": extra, "wraps": wraps})
 }
 
 /// structural class of an input (to tell the listed known finding from a new violation)
@@ -191,9 +193,19 @@ fn run_inner(input: &Value) -> Option<Value> {
         if !with_out && (call.starts_with("array_concat ${arr}") || call.starts_with("set_from_array ${arr}")) {
             continue; // the returned collection would not be captured: cannot be told apart from a leak
         }
+        let creates_handle = call.starts_with("array_concat ${arr}") || call.starts_with("set_from_array ${arr}");
+        let wrap = if creates_handle { 0 } else { input["wraps"].as_array().and_then(|w| w.get(i)).and_then(|x| x.as_u64()).unwrap_or(0) };
+        if wrap == 1 {
+            context = runner::run_script("hw = range 0 2\nwi = set x", context, None).ok()?;
+        }
         let before: BTreeMap<String, String> = context.variables.iter().map(|(k, v)| (k.clone(), v.clone())).collect();
         let h_before = handle_count(&context);
-        let script = if with_out { format!("out = {}", call) } else { call.to_string() };
+        let line = if with_out { format!("out = {}", call) } else { call.to_string() };
+        let script = match wrap {
+            1 => format!("for wi in ${{hw}}\n{}\nend", line),
+            2 => format!("fn wf{}\n{}\nend\nwf{}", i, line, i),
+            _ => line,
+        };
         context = match runner::run_script(&script, context, None) {
             Ok(c) => c,
             Err(e) => return Some(json!({"step": i, "script": script, "error": e.to_string()})),
@@ -205,6 +217,10 @@ fn run_inner(input: &Value) -> Option<Value> {
         // documented effects: `unset va` removes va
         if call == "unset va" {
             expect.remove("va");
+        }
+        if wrap == 1 {
+            // the loop variable keeps the last element
+            expect.insert("wi".to_string(), "1".to_string());
         }
         if call.starts_with("unset ") && call.contains(" vb") || call == "unset vb scope::unset::arguments" {
             expect.remove("vb");
@@ -227,6 +243,11 @@ fn run_inner(input: &Value) -> Option<Value> {
             return None; // result handle not captured: cannot be told apart from a leak; skip this sample
         }
         context.variables.remove("out");
+        if wrap == 1 {
+            context = runner::run_script("release ${hw}", context, None).ok()?;
+            context.variables.remove("hw");
+            context.variables.remove("wi");
+        }
     }
     None
 }
